@@ -29,6 +29,16 @@ AnyFnGen = Callable[..., T]
 MaybeAwaitable = Union[Awaitable[T], T]
 
 
+def _call_in_thread(fn: Callable[..., T], *args: Any, **kwargs: Any) -> T:
+    # A StopIteration cannot travel through a future: awaiting it would end
+    # the awaiting coroutine with the exception's value (or never resolve the
+    # future). This mirrors what Python does for coroutines (PEP 479).
+    try:
+        return fn(*args, **kwargs)
+    except StopIteration as err:
+        raise RuntimeError("function raised StopIteration") from err
+
+
 class AsyncIORuntime(SubscriptionRuntime):
     """
     Executor implementation to work with Python's asyncio module.
@@ -53,7 +63,7 @@ class AsyncIORuntime(SubscriptionRuntime):
         ):
 
             return self.loop.run_in_executor(
-                None, ft.partial(fn, *args, **kwargs)
+                None, ft.partial(_call_in_thread, fn, *args, **kwargs)
             )
 
         return fn(*args, **kwargs)
@@ -156,7 +166,7 @@ class AsyncIORuntime(SubscriptionRuntime):
 
             async def wrapped(*args, **kwargs):
                 return await self.loop.run_in_executor(
-                    None, ft.partial(func, *args, **kwargs)
+                    None, ft.partial(_call_in_thread, func, *args, **kwargs)
                 )
 
             return wrapped
